@@ -260,6 +260,9 @@ pub fn synthetic_history(rng: &mut Rng) -> Vec<Op> {
         .collect();
     let n = rng.range(1, 400);
     let max_depth = rng.range(0, 4) as u8;
+    // one history in three draws its scores from a handful of values: equal scores with
+    // other bounds and depths on one key (what fail-hard window edges produce in a search)
+    let coarse = rng.chance(1, 3);
     (0..n)
         .map(|_| {
             let key = *rng.pick(&keys);
@@ -274,6 +277,7 @@ pub fn synthetic_history(rng: &mut Rng) -> Vec<Op> {
                             let d = rng.below(64) as i32;
                             *rng.pick(&[i32::MAX - 1000, -(i32::MAX - 1000), i32::MAX - 1000 - d, -(i32::MAX - 1000) + d, 32767, -32767, i32::MAX, i32::MIN + 1, 0])
                         }
+                        _ if coarse => *rng.pick(&[-1, 0, 0, 1, 35, 100]),
                         _ => rng.range(0, 4000) as i32 - 2000,
                     },
                     mv: if rng.chance(1, 4) { None } else { Some([rng.below(64) as u8, rng.below(64) as u8, rng.below(6) as u8, rng.below(5) as u8]) },
